@@ -7,37 +7,6 @@ Import ListNotations.
 Require Import V.Repeat.Model V.Repeat.Proofs V.Repeat.Final.
 Open Scope Z_scope.
 
-Inductive pevent :=
-| PWrite (i : nat)    (* producer i is asked to write output now: only a living producer does *)
-| PFinish (i : nat)   (* producer i finishes *)
-| PEnv (e : event).   (* everything that is not the producers' doing: the clock, polls, the timer, kills *)
-
-Fixpoint set_b (i : nat) (v : bool) (l : list bool) {struct l} : list bool :=
-  match l, i with
-  | [], _ => []
-  | _ :: r, O => v :: r
-  | x :: r, S k => x :: set_b k v r
-  end.
-Definition is_alive (al : list bool) (i : nat) : bool := nth i al false.
-Definition all_dead (al : list bool) : bool := forallb negb al.
-
-(* what the observer's engine sees of a history of its producers *)
-Fixpoint compile (al : list bool) (pes : list pevent) : list event :=
-  match pes with
-  | [] => []
-  | PWrite i :: r => if is_alive al i then Out i :: compile al r else compile al r
-  | PFinish i :: r =>
-      if is_alive al i then
-        let al' := set_b i false al in
-        if all_dead al' then Notify :: compile al' r else compile al' r
-      else compile al r
-  | PEnv e :: r => e :: compile al r
-  end.
-
-Definition ptrace (c : cfg) (pes : list pevent) : list event :=
-  let al := map (fun _ => true) (c_prods c) in
-  if all_dead al then Notify :: compile al pes else compile al pes.
-
 (* the environment does not forge the producers' events, does not run the clock backwards, does not kill *)
 Definition env_ok (pe : pevent) : Prop :=
   match pe with PEnv e => okev e /\ (forall i, e <> Out i) /\ e <> Notify | _ => True end.
@@ -83,12 +52,45 @@ Proof.
 Qed.
 
 (* producers that behave as producers give the engine a history in which no output follows the notification *)
-Lemma ptrace_quiet c pes : Forall env_ok pes -> quiet c (init c) (ptrace c pes).
+Lemma ptrace_from_quiet c al pes : Forall env_ok pes -> quiet c (init c) (ptrace_from al pes).
 Proof.
-  intros Hok. unfold ptrace. cbv zeta.
-  destruct (all_dead (map (fun _ => true) (c_prods c))) eqn:Ed.
+  intros Hok. unfold ptrace_from.
+  destruct (all_dead al) eqn:Ed.
   - cbn [quiet]. split; [exact I|]. split; [intros _ j; discriminate|]. apply compile_quiet; auto.
   - apply compile_quiet; auto. cbn. discriminate.
+Qed.
+
+Lemma ptrace_quiet c pes : Forall env_ok pes -> quiet c (init c) (ptrace c pes).
+Proof. apply ptrace_from_quiet. Qed.
+
+(* the producer-level scripts of the correspondence are producer histories *)
+Lemma compile_app al l1 : forall l2, compile al (l1 ++ l2) = compile al l1 ++ compile (alive_after al l1) l2.
+Proof.
+  revert al. induction l1 as [|pe r IH]; intros al l2; [reflexivity|].
+  destruct pe as [i|i|e]; cbn [app compile alive_after].
+  - destruct (is_alive al i); cbn [app]; rewrite IH; reflexivity.
+  - destruct (is_alive al i); [|apply IH]. cbv zeta. destruct (all_dead (set_b i false al)); cbn [app]; rewrite IH; reflexivity.
+  - cbn [app]. rewrite IH. reflexivity.
+Qed.
+
+Lemma alive_after_app al l1 : forall l2, alive_after al (l1 ++ l2) = alive_after (alive_after al l1) l2.
+Proof.
+  revert al. induction l1 as [|pe r IH]; intros al l2; [reflexivity|].
+  destruct pe as [i|i|e]; cbn [app alive_after]; apply IH.
+Qed.
+
+Definition flat3 (x : sstep3) : list pevent := let '(dt, pes, o) := x in (PEnv (Adv dt) :: pes) ++ [PEnv (Poll o)].
+Definition flats3 (l : list sstep3) : list pevent := concat (map flat3 l).
+
+Lemma run_steps3_state c l : forall al s, snd (run_steps3 c al s l) = run c s (compile al (flats3 l)).
+Proof.
+  induction l as [|[[dt pes] o] r IH]; intros al s; [reflexivity|].
+  cbn [run_steps3]. destruct (run_steps3 c (alive_after al pes) _ r) as [os s2] eqn:E. cbn [snd].
+  assert (E2 : s2 = snd (run_steps3 c (alive_after al pes)
+                 (poll c (run c (step c s (Adv dt)) (compile al pes)) o) r)) by (rewrite E; reflexivity).
+  rewrite E2, IH. unfold flats3. cbn [map concat]. fold (flats3 r). unfold flat3.
+  rewrite compile_app, run_app. cbn [app compile]. rewrite compile_app. cbn [alive_after]. rewrite alive_after_app.
+  cbn [alive_after compile app]. rewrite run_cons, run_app. reflexivity.
 Qed.
 
 Lemma sees_final_output_producers c pes :
